@@ -194,7 +194,7 @@ func suiteC08(s *Suite, rng *Rng, tier string) {
 	}
 	sec := newSecret(rng)
 	seeds := []seedSpec{
-		{[]builderSpec{{kind: "disclose", key: tiny, secret: sec, nattr: 3, nonrev: true}, {kind: "issue", key: tiny, secret: sec}}, false},
+		{[]builderSpec{{kind: "disclose", key: tiny, secret: sec, nattr: 3}, {kind: "issue", key: tiny, secret: sec}}, false},
 		{[]builderSpec{{kind: "disclose", key: toy, secret: sec, nattr: 4}}, false},
 		{[]builderSpec{{kind: "disclose", key: toy, secret: sec, nattr: 5, ranges: true}}, false},
 		{[]builderSpec{{kind: "disclose", key: toy, secret: sec, nattr: 4, nonrev: true}}, true},
